@@ -12,7 +12,7 @@ import (
 func init() {
 	Register(&Spec{
 		ID:          "C19",
-		Explanation: "Decides structural necessary conditions of pogs agreeing with generated accessors: (R1) sibling table: in pogs.extractField, pogs.insertField and text.marshalFieldValue every struct accessor sits under the schema type case whose width and offset scale the encoding prescribes (bool: bit offset; 8/16/32/64-bit data: offset*1/2/4/8 with the accessor of that width; enum: 16 bit; text/data/list/struct/interface/anyPointer: pointer slot), every type has a case, data fields are XORed with the default, and insert's bounds predicate isFieldInBounds uses the same widths; (R2) union discipline: extractStruct and insertStruct reach a field access only for dv == noDiscriminant or dv == discriminant, insertField is guarded by isFieldInBounds, and the discriminant is written through SetUint16 at DiscriminantOffset*2; (R3) the schema message cached by nodemap has its traversal budget lifted (shared with C20), assigned before the first read; (R5) no append in pogs whose result is not assigned back to its argument or built on a fresh slice (field paths of sibling fields must not share a backing array); (R6) the work list of embedded Go structs is consumed from the front, so embedding levels are visited breadth-first and the least nested field wins; (R2g) an empty Go string over a non-empty schema default is stored with SetNewText; (R7) extractList assigns its destination on every path that reports success (a null or empty list replaces what a reused destination held). Does NOT decide round-trip equality nor Go-struct tag/embedding resolution semantics.",
+		Explanation: "Decides structural necessary conditions of pogs agreeing with generated accessors: (R1) sibling table: in pogs.extractField, pogs.insertField and text.marshalFieldValue every struct accessor sits under the schema type case whose width and offset scale the encoding prescribes (bool: bit offset; 8/16/32/64-bit data: offset*1/2/4/8 with the accessor of that width; enum: 16 bit; text/data/list/struct/interface/anyPointer: pointer slot), every type has a case, data fields are XORed with the default, and insert's bounds predicate isFieldInBounds uses the same widths; (R2) union discipline: extractStruct and insertStruct reach a field access only for dv == noDiscriminant or dv == discriminant, insertField is guarded by isFieldInBounds, and the discriminant is written through SetUint16 at DiscriminantOffset*2; (R3) the schema message cached by nodemap has its traversal budget lifted (shared with C20), assigned before the first read; (R5) no append in pogs whose result is not assigned back to its argument or built on a fresh slice (field paths of sibling fields must not share a backing array); (R6) the work list of embedded Go structs is consumed from the front, so embedding levels are visited breadth-first and the least nested field wins; (R2g) an empty Go string over a non-empty schema default is stored with SetNewText; (R7) extractList assigns its destination on every path that reports success (a null or empty list replaces what a reused destination held). (R4v) the value of Struct.Ptr is used only where its error was tested; (R4t) a detected error is not lost. Does NOT decide round-trip equality nor Go-struct tag/embedding resolution semantics.",
 		Run:         runC19,
 	})
 }
@@ -38,6 +38,10 @@ func runC19(ctx *Ctx) {
 	ruleCachedBudget(ctx, "C19-R3")
 	ruleAppendNoAlias(ctx, "C19-R5", "pogs")
 	ruleExtractListAssigns(ctx, "C19-R7")
+	// a field the accessors cannot read must fail Extract as well: the value
+	// of Struct.Ptr is used only where its error was tested (shared with C01-R3)
+	ruleCheckedResultsIn(ctx, "C19-R4v", func(n string) bool { return strings.HasPrefix(n, "pogs.") })
+	ruleDetectedErrorNotLost(ctx, "C19-R4t", func(n string) bool { return strings.HasPrefix(n, "pogs.") }, detectedErrorExempt)
 	ruleErrorsNotDropped(ctx, "C19-R4", []string{"pogs"}, func(c string) bool {
 		return strings.Contains(c, "extract") || strings.Contains(c, "insert") || strings.Contains(c, "Extract") || strings.Contains(c, "Insert")
 	}, func(callee string) bool {
